@@ -226,6 +226,12 @@ Section Recover.
   Hypothesis pfx_complete : forall a x y, coords (smul a G) = Some (x, y) ->
     exists P0 P1, points_for_x x = Some (P0, P1) /\ (if Z.land y 1 =? 0 then P0 else P1) = smul a G.
 
+  Local Instance eqm_equiv : Equivalence (eqm n) := eqm_setoid n.
+  Local Instance eqm_add : Proper (eqm n ==> eqm n ==> eqm n) Z.add := Zplus_eqm n.
+  Local Instance eqm_sub : Proper (eqm n ==> eqm n ==> eqm n) Z.sub := Zminus_eqm n.
+  Local Instance eqm_mul : Proper (eqm n ==> eqm n ==> eqm n) Z.mul := Zmult_eqm n.
+  Local Instance eqm_opp : Proper (eqm n ==> eqm n) Z.opp := Zopp_eqm n.
+
   Lemma eqm_intro a b : a mod n = b mod n -> a == b.
   Proof. auto. Qed.
   Lemma eqm_of_eq a b : a = b -> a == b.
@@ -264,7 +270,7 @@ Section Recover.
     destruct (sloop fuel (gen_k n d z) d z) as [[[r s] recid]| |] eqn:Es; try discriminate.
     cbn [bind].
     destruct (to_bytes_32 r) as [rb| |] eqn:Erb; try discriminate. cbn [bind].
-    destruct (to_bytes_32 s) as [sb| |] eqn:Esb; try discriminate. cbn [bind].
+    destruct (to_bytes_32 s) as [sb| |] eqn:Esb; try discriminate. cbn [bind]. cbv zeta.
     intros H. injection H as <-.
     destruct (sign_loop_inv _ _ _ _ _ _ _ Es) as (k & x & y & Ec & Hk & Hr & Hr0 & Hs & Hs0 & Hrec).
     pose proof (coordsG_range _ _ _ Ec) as Hx.
@@ -281,7 +287,7 @@ Section Recover.
     intros z'. unfold pair_for_message_hash.
     assert (Hrecid : 0 <= recid <= 3).
     { rewrite Hrec. destruct (land1_cases y) as [-> | ->]; destruct (n <? x); lia. }
-    rewrite (decode_encode _ r s rb sb recid c Hrecid eq_refl Erb Esb). cbn [bind].
+    Show. rewrite (decode_encode _ r s rb sb recid c Hrecid eq_refl Erb Esb). cbn [bind].
     replace ((1 <=? r) && (r <? n) && (1 <=? s) && (s <? n)) with true by lia. cbn [negb].
     (* the abscissa is restored *)
     assert (Hxx : (if 1 <? recid then r + n else r) = x).
